@@ -179,6 +179,8 @@ def gen_request(rng, spec, m, codec):
             val[n] = "name desc"
         elif n == "show_deleted" and rng.random() < 0.3:
             val[n] = True
+        if f.get("repeated") and n in val and not isinstance(val[n], list):
+            val[n] = [val[n]]           # near-miss shapes: a marker field declared `repeated`
     return val
 
 
